@@ -1,6 +1,6 @@
 (* Properties/C15.v : Content stream framing round-trips and rejects malformed streams.
    Only statements, closed by lemmas of Proofs/Framing.v, each followed by Print Assumptions. *)
-From Shisui Require Import Base.Bytes Model.Framing Proofs.Framing Model.Dispatch Proofs.Dispatch.
+From Shisui Require Import Base.Bytes Model.Framing Proofs.Framing Proofs.FramingExtra Model.Dispatch Proofs.Dispatch.
 
 (* splitting inverts joining, for any list of items shorter than 2^32 bytes (empty items and the empty list included) *)
 Theorem C15_roundtrip : forall l : list bytes,
@@ -83,6 +83,58 @@ Theorem C15_rejoin : forall (l : list bytes) k,
   end.
 Proof. exact rejoin_split_stream. Qed.
 Print Assumptions C15_rejoin.
+
+(* unique decodability: "rejected rather than split differently" - a stream has one split, a list one canonical stream *)
+Theorem C15_join_injective : forall l1 l2 : list bytes,
+  Forall short l1 -> Forall short l2 -> encode_contents l1 = encode_contents l2 -> l1 = l2.
+Proof. exact encode_contents_injective. Qed.
+Print Assumptions C15_join_injective.
+
+Theorem C15_split_unique : forall data l1 l2, framed data l1 -> framed data l2 -> l1 = l2.
+Proof. exact framed_functional. Qed.
+Print Assumptions C15_split_unique.
+
+(* size accounting of any accepted stream: between 1 and 5 prefix bytes per item plus the items' bytes, so the
+   splitter can neither invent bytes nor produce more items than the stream has bytes (resource bound used by C01) *)
+Theorem C15_split_size_lower : forall data l,
+  decode_contents data = Ok l -> (length l + total_len l <= length data)%nat.
+Proof. exact decode_contents_size. Qed.
+Print Assumptions C15_split_size_lower.
+
+Theorem C15_split_size_upper : forall data l,
+  decode_contents data = Ok l -> (length data <= 5 * length l + total_len l)%nat.
+Proof. exact decode_contents_upper. Qed.
+Print Assumptions C15_split_size_upper.
+
+(* why `short` is in the statements: encodeSingleContent converts len(data) to uint32, so an item of exactly 2^32
+   bytes is framed as an EMPTY item followed by its bytes, which the splitter reads as further items.  Not reachable
+   over uTP with the item sizes the quantifier names (<= 2^20); stated so that the hypothesis is seen to be necessary. *)
+Theorem C15_long_item_wraps : forall d r,
+  nlen d = two32 -> decode_single (encode_single d ++ r) = Ok ([], d ++ r).
+Proof. exact long_item_wraps. Qed.
+Print Assumptions C15_long_item_wraps.
+
+Theorem C15_long_item_roundtrip_refuted : forall d,
+  nlen d = two32 -> decode_contents (encode_contents [d]) <> Ok [d].
+Proof. exact long_item_not_roundtrip. Qed.
+Print Assumptions C15_long_item_roundtrip_refuted.
+
+(* observation, not demanded by the property: length prefixes need not be minimal, two streams can carry one list *)
+Theorem C15_noncanonical_prefix_accepted :
+  exists s1 s2 l, s1 <> s2 /\ decode_contents s1 = Ok l /\ decode_contents s2 = Ok l /\ s1 = encode_contents l.
+Proof. exact noncanonical_prefix_accepted. Qed.
+Print Assumptions C15_noncanonical_prefix_accepted.
+
+(* single-item streams between two sides: the bytes arrive exactly when both frame alike (C19 supplies "alike") *)
+Theorem C15_utp_version_mismatch : forall vs vr d,
+  (vs =? 1) <> (vr =? 1) -> decode_utp_content vr (encode_utp_content vs d) <> Ok d.
+Proof. exact utp_version_mismatch_never_right. Qed.
+Print Assumptions C15_utp_version_mismatch.
+
+Theorem C15_utp_version_match : forall vs vr d,
+  (vs =? 1) = (vr =? 1) -> short d -> decode_utp_content vr (encode_utp_content vs d) = Ok d.
+Proof. exact utp_same_version_right. Qed.
+Print Assumptions C15_utp_version_match.
 
 (* premises are satisfiable by non-trivial values *)
 Example C15_nonvacuous :
